@@ -28,7 +28,11 @@ func NumSlice(sc Scope, resid []residual, min int) func(p *load.Program) *report
 
 func numIndex(sc Scope, resid []residual, min int, sliceMode bool) func(p *load.Program) *report.RuleResult {
 	return func(p *load.Program) *report.RuleResult {
-		r := newResult("NUM-INDEX", "every index into a slice, string or array in the "+sc.Name+" is inside the bounds by construction (range loop), by a dominating comparison with the length of the same object, or by the interval of the index against a known length; an index that can leave the bounds is a panic on some input", min)
+		id, doc := "NUM-INDEX", "every index into a slice, string or array in the "+sc.Name+" is inside the bounds by construction (range loop), by a dominating comparison with the length of the same object, by a length contract of the callee that produced the object, by what every call site establishes, or by the interval of the index against a known length; an index that can leave the bounds is a panic on some input"
+		if sliceMode {
+			id, doc = "NUM-SLICE", "every bound of a slice expression x[a:b] in the "+sc.Name+" is between 0 and the length of x by the same arguments as NUM-INDEX (known length, dominating comparison with len of the same object, position of a separator found in the same string, what every call site establishes); a bound out of range is a panic on some input"
+		}
+		r := newResult(id, doc, min)
 		used := map[int]bool{}
 		for _, fn := range sortedFuncs(p) {
 			if !sc.has(p, fn) || len(fn.Blocks) == 0 {
@@ -109,7 +113,7 @@ func numIndex(sc Scope, resid []residual, min int, sliceMode bool) func(p *load.
 			}
 		}
 		for i, rs := range resid {
-			r.Suppressions = append(r.Suppressions, report.Suppression{Rule: "NUM-INDEX", Symbol: rs.fn + " " + rs.conv, Reason: rs.reason, Used: used[i]})
+			r.Suppressions = append(r.Suppressions, report.Suppression{Rule: id, Symbol: rs.fn + " " + rs.conv, Reason: rs.reason, Used: used[i]})
 		}
 		return r
 	}
